@@ -4449,6 +4449,11 @@ class TLSConnection(TLSRecordLayer):
             for result in self._sendError(
                     AlertDescription.unknown_psk_identity):
                 yield result
+        except TLSInternalError as alert:
+            for result in self._sendError(
+                    AlertDescription.internal_error,
+                    str(alert)):
+                yield result
         except TLSInsufficientSecurity:
             for result in self._sendError(
                     AlertDescription.insufficient_security):
@@ -4904,7 +4909,13 @@ class TLSConnection(TLSRecordLayer):
     def _serverAnonKeyExchange(self, serverHello, keyExchange, cipherSuite):
 
         # Create ServerKeyExchange
-        serverKeyExchange = keyExchange.makeServerKeyExchange()
+        try:
+            serverKeyExchange = keyExchange.makeServerKeyExchange()
+        except TLSInternalError as alert:
+            for result in self._sendError(
+                    AlertDescription.internal_error,
+                    str(alert)):
+                yield result
 
         # Send ServerHello[, Certificate], ServerKeyExchange,
         # ServerHelloDone
